@@ -151,6 +151,22 @@ CLAIMS = {
          "RaggedArray; by-path refusal with byte snapshots); key/type tables regenerated from source.",
          "Coq proof over an executable model of descriptor validation + in-Coq differential evaluation over enumerated corruptions",
          "6.C18"),
+ 'C06': ("kernel-checked over Readcode.v, whose type / byte-order / language tables and both documented "
+         "compatibility tables are REGENERATED from darr/readcodearray.py and docs/readcode.rst on every run: for "
+         "every language, numeric type, byte order, shape of any rank and extents and any element values, the "
+         "documented meaning of the offered program applied to the encoded data file is defined and yields the "
+         "stored element at every index -- axes as stored (row-major languages) or reversed (column-major), via "
+         "rev_axes for any rank -- incl. Matlab's strided complex passes and half.typecast, Scilab's pair axis, "
+         "Python's real/imag split (C06_denote); every table token means the stored type and byte order in its "
+         "language (finite, exhaustive); offered = documented tables, readcodelanguages = the offered ones; the "
+         "named file is the requested path; no writing open mode. Tie: the model's printer must equal "
+         "Array.readcode character for character over the complete structure space (13 types x 2 orders x rank "
+         "1-4 x 12 languages x 3 path modes, compared inside coqc). Direct oracle / search: Python-family snippets "
+         "are executed, the other eight are run by independent strict interpreters on arrays of distinct random "
+         "values, with directory snapshots (also on empty arrays). TRUSTED, not proved: the reading of each "
+         "foreign construct (Appendix A).",
+         "Coq proof over a table-generated model of the code generators + in-Coq string equality with Array.readcode",
+         "6.C06"),
  'C12': ("PARTIAL. Kernel-checked: Python's slice normalisation and the positions a slice selects for every "
          "start/stop/step incl. negative steps and out-of-range bounds (exactly lo, lo+step, ... on the "
          "right side of hi; always inside the axis), the size of a basic-index result; on the Sched model: "
